@@ -20,6 +20,7 @@ var (
 	ErrPIDAlreadyExists = errors.New("astits: PID already exists")
 	ErrPCRPIDInvalid    = errors.New("astits: PCR PID invalid")
 	ErrNoFreePID        = errors.New("astits: no free PID")
+	ErrPIDInvalid       = errors.New("astits: PID invalid")
 
 	ErrAdaptationFieldTooBig = errors.New("astits: adaptation field doesn't fit in a packet")
 )
@@ -121,6 +122,10 @@ func NewMuxer(ctx context.Context, w io.Writer, opts ...func(*Muxer)) *Muxer {
 // if es.ElementaryPID is zero, it will be generated automatically
 func (m *Muxer) AddElementaryStream(es PMTElementaryStream) error {
 	if es.ElementaryPID != 0 {
+		// A PID is a 13-bit value
+		if es.ElementaryPID > PIDNull {
+			return ErrPIDInvalid
+		}
 		// The PID must be used neither by another elementary stream nor by the PMT
 		if m.isPIDTaken(es.ElementaryPID) {
 			return ErrPIDAlreadyExists
